@@ -29,7 +29,7 @@ def mapsOp (op : String) (a : Array Float) : Option (List Float) :=
   | "solenoid" => some (solenoidMap (g 0) (g 1) (g 2) (g 3) (g 4) (g 5)).toList  -- L k mx my E mc2
   | "hcor" => some (hcorMap (g 0) (g 1) (g 2) (g 3)).toList
   | "vcor" => some (vcorMap (g 0) (g 1) (g 2) (g 3)).toList
-  | "undulator" => some (undulatorMapPinned (g 0) (g 1) (g 2)).toList
+  | "undulator" => some (undulatorMap (g 0) (g 1) (g 2)).toList
   | "cavity" => some (cavityMap (consts a 5) (g 0) (g 1) (g 2) (g 3) (g 4)).toList  -- L V phase f E mc2 c pi
   | "ident" => some (identMap (α := Float)).toList
   | _ => none
